@@ -254,10 +254,30 @@ func runC11(c *Ctx) {
 		key := fname(h) + ":metadata-from-parsed-cer"
 		good := false
 		cerObj := parse.Call.Args[0]
+		isFromParsed := func(v ssa.Value) bool {
+			fc, ok := flow.Peel(v).(*ssa.Call)
+			return ok && flow.IsCallTo(fc, pkgSMPeer, "", "FromCER") && fc.Call.Args[0] == cerObj
+		}
 		for _, ci := range flow.CallInstrs(h) {
 			if flow.IsCallTo(ci, pkgSMPeer, "", "NewContext") {
-				if fc, ok := ci.Common().Args[1].(*ssa.Call); ok && flow.IsCallTo(fc, pkgSMPeer, "", "FromCER") && fc.Call.Args[0] == cerObj {
+				if isFromParsed(ci.Common().Args[1]) {
 					good = true
+				}
+				continue
+			}
+			// the metadata may be stored by a helper that receives it: NewContext(…, param) inside, FromCER(cer) here
+			g := flow.StaticCallee(ci)
+			if g == nil || g.Blocks == nil || !c.P.IsLibrary(g) {
+				continue
+			}
+			for _, cj := range flow.CallInstrs(g) {
+				if !flow.IsCallTo(cj, pkgSMPeer, "", "NewContext") {
+					continue
+				}
+				if mp, isP := flow.Peel(cj.Common().Args[1]).(*ssa.Parameter); isP && mp.Parent() == g {
+					if i := paramIndex(g, mp); i < len(ci.Common().Args) && isFromParsed(ci.Common().Args[i]) {
+						good = true
+					}
 				}
 			}
 		}
@@ -267,7 +287,15 @@ func runC11(c *Ctx) {
 		var at ssa.Instruction
 		for _, ci := range flow.CallInstrs(h) {
 			com := ci.Common()
-			if com.IsInvoke() && com.Method.Name() == "SetContext" {
+			sets := com.IsInvoke() && com.Method.Name() == "SetContext"
+			if g := flow.StaticCallee(ci); !sets && g != nil && g.Blocks != nil && c.P.IsLibrary(g) && pkgOf(g).Path() == pkgSM {
+				for _, cj := range flow.CallInstrs(g) {
+					if cj.Common().IsInvoke() && cj.Common().Method.Name() == "SetContext" {
+						sets = true
+					}
+				}
+			}
+			if sets {
 				if eb[ci.Block()] || pathFromErrEdge(h, parse, ci) != nil {
 					onReject, at = true, ci
 				}
